@@ -15,11 +15,13 @@ import (
 	"bytes"
 	"encoding/binary"
 	"fmt"
+	"math"
 	"net"
 	"reflect"
 	"sort"
 	"strconv"
 	"strings"
+	"time"
 )
 
 type vfC04Field struct {
@@ -452,10 +454,30 @@ func vfC04RenderAny(rv reflect.Value, fields []vfC04Field, ptr bool) string {
 		if rv.IsNil() {
 			return "null"
 		}
+		if rv.Kind() == reflect.Ptr && rv.Elem().Kind() == reflect.Struct && rv.CanInterface() {
+			// *big.Int, *inf.Dec: as they print themselves
+			if n := rv.Type().String(); n == "*big.Int" || n == "*inf.Dec" {
+				return "s:" + vfC04Ascii(rv.Interface().(fmt.Stringer).String())
+			}
+		}
 		rv = rv.Elem()
 	}
+	if rv.CanInterface() {
+		switch x := rv.Interface().(type) {
+		case time.Time:
+			return "tm:" + strconv.FormatInt(x.UnixMilli(), 10)
+		case UUID:
+			return "u:" + vfC04Join(vfC04B2I(x[:]))
+		case Duration:
+			return fmt.Sprintf("dur:%d/%d/%d", x.Months, x.Days, x.Nanoseconds)
+		}
+	}
 	switch rv.Kind() {
-	case reflect.Int, reflect.Int32, reflect.Int64:
+	case reflect.Float32:
+		return "f32:" + strconv.FormatUint(uint64(math.Float32bits(float32(rv.Float()))), 10)
+	case reflect.Float64:
+		return "f64:" + strconv.FormatUint(math.Float64bits(rv.Float()), 10)
+	case reflect.Int, reflect.Int8, reflect.Int16, reflect.Int32, reflect.Int64:
 		return strconv.FormatInt(rv.Int(), 10)
 	case reflect.String:
 		return "t:" + vfC04Join(vfC04S2I(rv.String()))
@@ -560,6 +582,38 @@ func vfC04Dest(kind string) interface{} {
 	switch kind {
 	case "blob":
 		return new([]byte)
+	case "bigint":
+		return new(int64)
+	case "smallint":
+		return new(int16)
+	case "tinyint":
+		return new(int8)
+	case "float":
+		return new(float32)
+	case "double":
+		return new(float64)
+	case "timestamp", "date":
+		return new(time.Time)
+	case "time":
+		return new(time.Duration)
+	case "uuid":
+		return new(UUID)
+	case "inet":
+		return new(string)
+	case "duration":
+		return new(Duration)
+	case "varint", "decimal":
+		// pointer to the arbitrary-precision type the driver itself pairs with the column type
+		// (*big.Int, *inf.Dec) without importing it here
+		t := TypeVarint
+		if kind == "decimal" {
+			t = TypeDecimal
+		}
+		d, err := NewNativeType(4, t, "").NewWithError()
+		if err != nil {
+			panic(err)
+		}
+		return d
 	case "list_blob":
 		return new([][]byte)
 	case "map_int_blob":
